@@ -527,6 +527,8 @@ Proof.
       simpl in Hp.
       match type of Hp with context [if ?cnd then Unsup else _] => destruct cnd end; [discriminate|].
       inversion Hp; subst. apply check_decl_ext in Er. exact Er. }
+    match goal with |- stmt_result_ok ?x1 ?x2 ?x3 ?x4 ?x5 _ =>
+      change (stmt_result_ok x1 x2 x3 x4 x5 (exec P (S f) en (SWhile c s1 s2))) end.
     eapply (while_sound f c s1 s2 ret fr d' V' tc im em2 r1 J2 ste Je _ _ HS Einf Eb Ec1 Ec2 Cs Cd Ee Cm eq_refl);
       [simpl; apply incl_appl; apply incl_refl | | apply le_n | eapply env_decl_ext; eauto
        | eapply view_le_sound; eauto | left; reflexivity].
@@ -543,8 +545,9 @@ Proof.
               (slift en (eval P f en (ENew c args)) (fun w => if catches P exc_id w then Val (Raised en w) else Exn TypeError))).
     assert (Et : te = TInst c).
     { change (infer P true (decl st) fr (ENew c args) = Ok (te, m0)) in Ei. rewrite infer_new in Ei.
-      destruct (fields_of P c); [|discriminate]. destruct (infer_list P true (decl st) fr args); cbn [bind] in Ei; try discriminate.
-      destruct (check_args P l0 l); inversion Ei; reflexivity. }
+      destruct (fields_of P c) as [fds0|]; [|discriminate].
+      destruct (infer_list P true (decl st) fr args) as [ats0| |]; cbn [bind] in Ei; try discriminate.
+      destruct (check_args P ats0 fds0); inversion Ei; reflexivity. }
     subst te.
     eapply slift_ok with (Q := fun v => mem P v (TInst c) /\ maps_ok P en v m0); [|exact Hd|].
     { pose proof (EO (ENew c args) _ _ _ _ en Ei Hd Hfr) as Re. destruct (eval P f en (ENew c args)); exact Re. }
@@ -600,7 +603,12 @@ Proof.
         { destruct Hcv as [->|[fs0 [Hi Hf0]]].
           - eapply merge_sound; [exact Cmh | left; reflexivity | exact Hfr].
           - eapply merge_sound; [exact Cmh | right; apply in_jump_opts; exact Hi | exact Hf0]. }
-        destruct Hh as [mhf [Emh Hmh]]. rewrite Emh in Ebv. simpl in Ebv.
+        destruct Hh as [mhf [Emh Hmh]].
+        assert (Ebv' : (match x with
+                        | Some y => bind (bind_var P (decl rb) (unwrap_frame (merge P fr (Some fr :: jump_opts (exc Jb)))) y (TInst c)) (fun dv => Ok dv)
+                        | None => Ok (decl rb, unwrap_frame (merge P fr (Some fr :: jump_opts (exc Jb))))
+                        end) = Ok (dh, Vh)) by exact Ebv.
+        clear Ebv. rename Ebv' into Ebv. rewrite Emh in Ebv. simpl in Ebv.
         assert (Hbind : env_decl_ok P (bind_opt en1 x (VObj dc fs)) dh /\ env_frame_ok P (bind_opt en1 x (VObj dc fs)) Vh).
         { destruct x as [y|]; simpl.
           - destruct (bind_var P (decl rb) mhf y (TInst c)) as [[d1 V1]| |] eqn:Bv; cbn [bind] in Ebv; try discriminate.
@@ -627,10 +635,34 @@ Proof.
            split; [unfold env_ok; cbn [decl cur]; rewrite Emg; split; assumption|].
            right. exists fhe. split; [|exact Hfhe].
            simpl. destruct x; inversion Efhe; subst; apply in_or_app; right; right; apply in_or_app; right; apply in_or_app; left; left; reflexivity.
-        -- admit.
-        -- admit.
-        -- admit.
-        -- admit.
+        -- destruct Rh as [Mv [Hd2 Hcv2]]. destruct IJh as [IJhb [IJhc IJhe]].
+           destruct x as [y|]; simpl;
+             (split; [exact Mv|]; split;
+              [try apply decl_ok_remove; eapply env_decl_ext; eauto
+              | destruct Hcv2 as [->|[f0 [Hi Hf0]]];
+                [right; exists Vh; split; [exact IVh | try apply frame_ok_remove; exact Hfh]
+                | right; exists f0; split; [apply IJhe; exact Hi | try apply frame_ok_remove; exact Hf0]]]).
+        -- destruct Rh as [Hd2 [Hcv2 [fb [Hib Hfb]]]]. destruct IJh as [IJhb [IJhc IJhe]].
+           destruct x as [y|]; simpl;
+             (split; [try apply decl_ok_remove; eapply env_decl_ext; eauto|]; split;
+              [destruct Hcv2 as [->|[f0 [Hi Hf0]]];
+                [right; exists Vh; split; [exact IVh | try apply frame_ok_remove; exact Hfh]
+                | right; exists f0; split; [apply IJhe; exact Hi | try apply frame_ok_remove; exact Hf0]]
+              | exists fb; split; [apply IJhb; exact Hib | try apply frame_ok_remove; exact Hfb]]).
+        -- destruct Rh as [Hd2 [Hcv2 [fb [Hib Hfb]]]]. destruct IJh as [IJhb [IJhc IJhe]].
+           destruct x as [y|]; simpl;
+             (split; [try apply decl_ok_remove; eapply env_decl_ext; eauto|]; split;
+              [destruct Hcv2 as [->|[f0 [Hi Hf0]]];
+                [right; exists Vh; split; [exact IVh | try apply frame_ok_remove; exact Hfh]
+                | right; exists f0; split; [apply IJhe; exact Hi | try apply frame_ok_remove; exact Hf0]]
+              | exists fb; split; [apply IJhc; exact Hib | try apply frame_ok_remove; exact Hfb]]).
+        -- destruct Rh as [Mv [Hd2 Hcv2]]. destruct IJh as [IJhb [IJhc IJhe]].
+           destruct x as [y|]; simpl;
+             (split; [exact Mv|]; split;
+              [try apply decl_ok_remove; eapply env_decl_ext; eauto
+              | destruct Hcv2 as [->|[f0 [Hi Hf0]]];
+                [right; exists Vh; split; [exact IVh | try apply frame_ok_remove; exact Hfh]
+                | right; exists f0; split; [apply IJhe; exact Hi | try apply frame_ok_remove; exact Hf0]]]).
       * eapply result_weaken; [exact Rb | intros ? E; discriminate E | eapply decl_ext_trans; [exact Xv|eapply decl_ext_trans; eauto] | exact IJb].
     + simpl in Rb. destruct (Nat.eqb c exc_id && negb (type_failure xx)); [reflexivity | exact Rb].
   - (* SFinally *) discriminate.
@@ -656,12 +688,16 @@ Proof.
     inversion Hc; subst. clear Hc.
     assert (X2 : decl_ext (decl st1) (decl st')) by (apply check_decl_ext in E2; exact E2).
     pose proof (SO s1 ret st st1 J1 en E1 Hst0) as R1.
-    destruct (exec P f en s1) as [[en1|en1 w|en1|en1|en1 w]|xx|]; simpl obind;
-      try (eapply result_weaken; [exact R1 | intros ? E; discriminate E | exact X2 | apply jincl_l]; fail);
-      [|exact R1|exact I].
-    destruct R1 as [H1 Hcv].
-    eapply result_shift; [eapply covered_incl; [exact Hcv | apply jincl_l]|].
-    eapply result_weaken; [exact (SO s2 ret st1 st' J2 en1 E2 H1) | auto | apply decl_ext_refl | apply jincl_r].
+    destruct (exec P f en s1) as [[en1|en1 w|en1|en1|en1 w]|xx|]; cbn [obind].
+    + destruct R1 as [H1 Hcv].
+      eapply result_shift; [eapply covered_incl; [exact Hcv | apply jincl_l]|].
+      eapply result_weaken; [exact (SO s2 ret st1 st' J2 en1 E2 H1) | auto | apply decl_ext_refl | apply jincl_r].
+    + eapply result_weaken; [exact R1 | intros ? E; discriminate E | exact X2 | apply jincl_l].
+    + eapply result_weaken; [exact R1 | intros ? E; discriminate E | exact X2 | apply jincl_l].
+    + eapply result_weaken; [exact R1 | intros ? E; discriminate E | exact X2 | apply jincl_l].
+    + eapply result_weaken; [exact R1 | intros ? E; discriminate E | exact X2 | apply jincl_l].
+    + exact R1.
+    + exact I.
   - (* SExpr *)
     destruct (infer P true (decl st) fr e) as [[te m]| |] eqn:Ei; simpl in Hc; try discriminate.
     inversion Hc; subst. clear Hc.
@@ -670,4 +706,51 @@ Proof.
     intros v _. apply normal_ok. exact Hst0.
   - (* SLab *)
     apply with_label_ok in Hc. exact (SO s ret st st' J en Hc Hst0).
-Admitted.
+Qed.
+
+Lemma body_from_stmt : forall f, stmt_ok_at P f -> body_ok_at P f.
+Proof.
+  intros f SO self fd en Hc Hd. unfold check_fun in Hc. apply with_label_ok in Hc.
+  fold (params_of self fd) in Hc.
+  destruct (negb _); [discriminate|].
+  destruct (redecl_ok P _ (f_body fd)) as [bound|]; [|discriminate].
+  destruct (negb _); [discriminate|].
+  destruct (negb _); [discriminate|].
+  destruct (negb _); [discriminate|].
+  destruct (check_stmt P true (f_ret fd) _ (f_body fd)) as [[st' J]| |] eqn:Eb; cbn [bind fst] in Hc; try discriminate.
+  pose proof (SO _ _ _ _ _ en Eb (conj Hd (frame_ok_nil en))) as R.
+  unfold call_ok. destruct (exec P f en (f_body fd)) as [[en1|en1 w|en1|en1|en1 w]|x|]; simpl in *; try exact R; try reflexivity.
+  - destruct R as [[_ Hc1] _]. destruct (cur st'); [|contradiction].
+    destruct (f_ret fd); simpl in Hc; try discriminate. constructor.
+  - destruct R as [Mv _]. exact Mv.
+  - destruct R as [Mw _]. exact Mw.
+Qed.
+
+Theorem sound_all : forall f, sound_upto f.
+Proof.
+  induction f as [|f IH]; intros f' Hle.
+  - assert (f' = 0) by lia. subst. split.
+    + intros e d fr t m en _ _ _. exact I.
+    + intros s ret st st' J en _ _. exact I.
+  - destruct (Nat.eq_dec f' (S f)) as [->|Hn]; [|apply IH; lia].
+    destruct (IH f (le_n f)) as [EO SO]. split.
+    + apply expr_step; [exact Hpo | exact EO | apply body_from_stmt; exact SO].
+    + apply stmt_step. exact IH.
+Qed.
+
+Theorem stmt_invariant_holds : forall f, stmt_ok_at P f.
+Proof. intro f. exact (proj2 (sound_all f f (le_n f))). Qed.
+
+Theorem expr_sound_holds : forall f, expr_ok_at P f.
+Proof. intro f. exact (proj1 (sound_all f f (le_n f))). Qed.
+
+Theorem call_sound : forall g fd vs fuel, lookup (p_funcs P) g = Some fd ->
+  mems P vs (map snd (f_params fd)) -> call_ok P (f_ret fd) (call_fun P fuel g vs).
+Proof.
+  intros g fd vs fuel Hl Hm. unfold call_fun. rewrite Hl.
+  rewrite (mems_length P _ _ Hm), map_length, Nat.eqb_refl.
+  apply (body_from_stmt fuel (stmt_invariant_holds fuel) None fd).
+  - exact (proj1 (proj2 (proj2 Hpo)) _ _ Hl).
+  - apply bind_params_ok. exact Hm.
+Qed.
+End S4.
